@@ -1350,11 +1350,11 @@ func (s *Server) cleanupExpiredLeases() {
 		}
 
 		// Remove from fast path cache (MAC, VLAN pair and circuit-id entries)
+		// (the lease carries the hardware address as received: re-parsing the
+		// table key fails for BOOTP hardware addresses that are not 6, 8 or 20
+		// octets long, and their entries were never removed)
 		if s.loader != nil {
-			hwAddr, _ := net.ParseMAC(mac)
-			if hwAddr != nil {
-				s.removeFromFastPath(hwAddr, lease)
-			}
+			s.removeFromFastPath(lease.MAC, lease)
 		}
 
 		// The session is over: Accounting-Stop, QoS policy, NAT port block
